@@ -17,6 +17,29 @@ def _calls(n) -> List[ast.Call]:
     return [x for x in walk_shallow(e) if isinstance(x, ast.Call)] if e is not None else []
 
 
+def launcher_replies_after_stepping(chk: Check, rule: str) -> None:
+    """With nowait the launcher schedules the process and replies with its id; otherwise it steps the process to completion and only THEN reads
+    ``proc.future().result()`` -- the future the process has once it terminated (on_except / on_kill may have replaced an earlier one).  Shared with C02: the
+    launcher's reply is one of the things that report the outcome."""
+    prog = chk.prog
+    pl = prog.cls('process_comms.ProcessLauncher')
+    # nowait
+    for handler in ('_launch', '_continue'):
+        hf = prog.view(pl.vmethods[handler])
+        cfg = cfg_of(hf)
+        ff = chk.ctx.facts.analyse(hf)
+        sched = [n for n in cfg.nodes if any(last_name(c) in ('ensure_future', 'create_task') and 'proc.step_until_terminated()' in norm(c) for c in _calls(n))]
+        awaits = [n for n in cfg.nodes if n.expr() is not None and any(isinstance(x, ast.Await) and norm(x.value) == 'proc.step_until_terminated()' for x in walk_shallow(n.expr()))]
+        ok = len(sched) == 1 and ('T', 'nowait') in ff.at(sched[0]) and len(awaits) == 1 and ('F', 'nowait') in ff.at(awaits[0])
+        chk.ob(rule, hf, ok, f'{handler}: with nowait the process is scheduled, otherwise it is stepped to completion before replying', kind='nowait-branches')
+        rets = [n for n in cfg.nodes if n.kind == 'return']
+        pid_rets = [r for r in rets if norm(r.ast.value) == 'proc.pid']
+        res_rets = [r for r in rets if norm(r.ast.value) == 'proc.future().result()']
+        ok = len(pid_rets) == 1 and len(res_rets) == 1 and bool(sched) and bool(awaits) and pid_rets[0].id in cfg.reachable(sched, edge_ok=no_exc) and res_rets[0].id in cfg.reachable(awaits, edge_ok=no_exc) \
+            and pid_rets[0].id not in cfg.reachable(awaits, edge_ok=no_exc)
+        chk.ob(rule, hf, ok, f'{handler}: nowait replies with the id immediately; otherwise the reply is the process\'s outputs or its error (future().result())', kind='replies')
+
+
 def run(chk: Check) -> None:
     prog = chk.prog
     pc = prog.module('process_comms')
@@ -203,21 +226,7 @@ def run(chk: Check) -> None:
             chk.ob('GUARD-rejection', k_.qualname, not own, f'{k_.name} instances have no truth value of their own (the launcher asks "is a persister configured" with `not self._persister` in '
                    f'{sorted({h.name for h, _ in truth_tests})})' + ('' if not own else f': it defines {own}, so a persister that holds nothing yet is taken for "no persister" and every persisting / '
                    'continue task is rejected'), kind='persister-truth-is-presence', expr=k_.name)
-    # nowait
-    for handler in ('_launch', '_continue'):
-        hf = prog.view(pl.vmethods[handler])
-        cfg = cfg_of(hf)
-        ff = chk.ctx.facts.analyse(hf)
-        sched = [n for n in cfg.nodes if any(last_name(c) in ('ensure_future', 'create_task') and 'proc.step_until_terminated()' in norm(c) for c in _calls(n))]
-        awaits = [n for n in cfg.nodes if n.expr() is not None and any(isinstance(x, ast.Await) and norm(x.value) == 'proc.step_until_terminated()' for x in walk_shallow(n.expr()))]
-        ok = len(sched) == 1 and ('T', 'nowait') in ff.at(sched[0]) and len(awaits) == 1 and ('F', 'nowait') in ff.at(awaits[0])
-        chk.ob('DOM-nowait', hf, ok, f'{handler}: with nowait the process is scheduled, otherwise it is stepped to completion before replying', kind='nowait-branches')
-        rets = [n for n in cfg.nodes if n.kind == 'return']
-        pid_rets = [r for r in rets if norm(r.ast.value) == 'proc.pid']
-        res_rets = [r for r in rets if norm(r.ast.value) == 'proc.future().result()']
-        ok = len(pid_rets) == 1 and len(res_rets) == 1 and bool(sched) and bool(awaits) and pid_rets[0].id in cfg.reachable(sched, edge_ok=no_exc) and res_rets[0].id in cfg.reachable(awaits, edge_ok=no_exc) \
-            and pid_rets[0].id not in cfg.reachable(awaits, edge_ok=no_exc)
-        chk.ob('DOM-nowait', hf, ok, f'{handler}: nowait replies with the id immediately; otherwise the reply is the process\'s outputs or its error (future().result())', kind='replies')
+    launcher_replies_after_stepping(chk, 'DOM-nowait')
     # _continue
     cf = prog.view(pl.vmethods['_continue'])
     cfg = cfg_of(cf)
